@@ -92,6 +92,16 @@ def gen_cases(rng, tier):
             for dst in ([n], [-1], [n + 1], [1, n], [0, -1], list(s)):
                 for t in ([1], list(s), [4, 4], [n], [n, 1]):
                     add("pipeline", "pipe %s I:%d %s %s" % (A(s), k, L(dst), A(t)))
+    # a checked stage followed by a second checked stage: (valid / invalid) x (valid / invalid)
+    for s in some_shapes:
+        n = 1
+        for e in s: n *= e
+        firsts = [[n], [1, n], [n, 1], [-1], [n + 1], [0, -1]] + ([[2, n // 2], [n // 2, 2]] if n % 2 == 0 and n > 2 else [])
+        seconds = [[n], [-1], [1, n], [n, 1], [n + 1], [n + 2, 1], [2, n], [-1, -1], [0], [n - 1] if n > 1 else [5]]
+        for k in range(6):
+            for d1 in firsts:
+                for d2 in seconds:
+                    add("pipeline3", "pipe3 %s I:%d %s %s" % (A(s), k, L(d1), L(d2)))
     # two stage results as both operands: every (valid / invalid) x (valid / invalid) combination, shapes that do / do not fit the outer view
     for s in some_shapes:
         n = 1
@@ -130,6 +140,6 @@ def distribution(streams):
 def classify(line, impl, spec, model):
     """operation x what happened instead of the expected status"""
     t = line.split(" ")
-    op = t[0] if t[0] not in ("pipe", "pipe2") else t[0] + "k" + t[2][2:]
+    op = t[0] if t[0] not in ("pipe", "pipe2", "pipe3") else t[0] + "k" + t[2][2:]
     op = re.sub(r"_(u|u8|ua)$", "", op)       # the same call site reached with an unsigned axis container
     return "%s:%s-instead-of-%s" % (op, _status(impl), _status(spec))
